@@ -55,6 +55,11 @@ class ClassVal:
         self.name = name
 
 
+class ModuleVal:
+    def __init__(self, name, attrs):
+        self.name, self.attrs = name, attrs
+
+
 class Closure:
     def __init__(self, node, env):
         self.node, self.env = node, env
@@ -85,11 +90,11 @@ EXC_LATTICE = {
 }
 
 
-def exc_subclass(a, b):
+def exc_subclass(a, b, extra=None):
     while a is not None:
         if a == b:
             return True
-        a = EXC_LATTICE.get(a)
+        a = (extra or {}).get(a, EXC_LATTICE.get(a))
     return False
 
 
@@ -213,6 +218,15 @@ class Interp:
         U = self.U
         if sortname is None:
             return v
+        if isinstance(v, tuple) and v[:1] == ('excval',):
+            if v[2] is not None:
+                return self.coerce(v[2], sortname)
+            consts = getattr(U, 'exc_consts', None)
+            if consts is None:
+                consts = U.exc_consts = {}
+            if v[1] not in consts:
+                consts[v[1]] = z3.Const('exc_' + v[1], U.sort(sortname))
+            return consts[v[1]]
         if is_z3(v):
             want = U.sort(sortname)
             if v.sort() == want:
@@ -335,8 +349,10 @@ class Interp:
             return FuncVal('builtin', name)
         if name in ('True', 'False', 'None'):
             return {'True': True, 'False': False, 'None': None}[name]
-        if name in EXC_LATTICE:
+        if name in EXC_LATTICE or name in getattr(self.U, 'exc_lattice', {}):
             return ClassVal(name)
+        if name in getattr(self.U, 'modules', {}):
+            return ModuleVal(name, self.U.modules[name])
         raise OutsideSubset('unknown name %s' % name)
 
     def callee_map(self):
@@ -566,8 +582,20 @@ class Interp:
                     raise OutsideSubset('no field %s on sort %s' % (attr, sn))
                 raise SymRaise('AttributeError', attr)
             return FuncVal('method', attr, base)
-        if isinstance(base, (list, tuple)):
+        if isinstance(base, (list, tuple)) and not (base[:1] == ('opaque',)):
             return FuncVal('method', attr, base)
+        if isinstance(base, str):
+            return FuncVal('method', attr, base)
+        if isinstance(base, ModuleVal):
+            if attr not in base.attrs:
+                raise OutsideSubset('%s.%s' % (base.name, attr))
+            return FuncVal('hook', base.name + '.' + attr, base.attrs[attr])
+        if isinstance(base, FuncVal) and attr in ('__module__', '__qualname__', '__name__'):
+            return self.fresh('Str', 'name')
+        if isinstance(base, tuple) and base[:1] == ('opaque',):
+            h = getattr(self.U, 'opaque_attr', None)
+            if h:
+                return h(self, base, attr)
         raise OutsideSubset('attribute %s of %r' % (attr, base))
 
     def ev_Subscript(self, node):
@@ -740,6 +768,8 @@ class Interp:
                 return self.call_contract(fn.obj, args, kwargs, node)
             if fn.kind == 'lemma':
                 return self.call_lemma(fn.obj, args, kwargs)
+            if fn.kind == 'hook':
+                return fn.obj(self, args, kwargs, node)
             if fn.kind == 'fnparam':
                 return self.call_contract(fn.obj, args, kwargs, node, callee_term=getattr(fn, 'term', None))
         if is_z3(fn):
@@ -787,7 +817,7 @@ class Interp:
 
     def call_class(self, name, args, kwargs):
         U = self.U
-        if name in EXC_LATTICE and name not in U.classmap:
+        if (name in EXC_LATTICE or name in getattr(U, 'exc_lattice', {})) and name not in U.classmap:
             return ('exc', name)
         hook = getattr(U, 'class_hooks', {}).get(name)
         if hook:
@@ -806,6 +836,12 @@ class Interp:
 
     def call_method(self, obj, name, args, kwargs, node):
         U = self.U
+        if isinstance(obj, str) and name == 'format':
+            return self.fresh('Str', 'fmt')          # the text of messages is not modelled
+        if isinstance(obj, tuple) and obj[:1] == ('opaque',):
+            h = getattr(U, 'opaque_method', None)
+            if h:
+                return h(self, obj, name, args, kwargs, node)
         if is_z3(obj):
             sn = self.sort_of(obj)
             hook = getattr(U, 'method_hooks', {}).get((sn, name))
@@ -875,7 +911,7 @@ class Interp:
                 if d is KeyError:
                     raise OutsideSubset('missing argument %s in call of %s' % (n, c.qualname))
                 vals[n] = d
-        return {n: self.coerce(vals[n], c.params[n]) for n in names}
+        return {n: (vals[n] if n in c.fnparams else self.coerce(vals[n], c.params[n])) for n in names}
 
     def call_contract(self, c, args, kwargs, node, callee_term=None):
         """Modular call: assert pre, havoc modifies, assume post."""
@@ -924,6 +960,30 @@ class Interp:
             elif c.yields:
                 result = self.fresh(c.yields, 'y_' + c.qualname.split('.')[-1])
                 post_env['result'] = result
+            # callee ghosts are unknown to the caller
+            for g, (gs, _init) in c.ghost.items():
+                post_env[g] = self.fresh(gs, 'g_' + g)
+            # exceptional outcome with a symbolic exception (callee declares raises_sym: what may escape)
+            if getattr(c, 'raises_sym', None) is not None:
+                self.env, self.old_env = saved_env, saved_old
+                if self.choose_bool(self.fresh('Bool', 'raises'), '@raises:' + c.qualname):
+                    term = self.fresh(self.U.exc_sort, 'exc')
+                    self.env, self.old_env = dict(post_env), dict(vals)
+                    self.env['exc'] = term
+                    try:
+                        rs = [self.to_bool(self.ev_pure(ast.parse(c.raises_sym, mode='eval').body))]
+                        rs += [self.to_bool(self.ev_pure(cl.node)) for cl in c.ensures_raise]
+                    finally:
+                        self.env, self.old_env = saved_env, saved_old
+                    for f in rs:
+                        self.assume(f)
+                    for m_, nv in rebinds.items():
+                        self.writeback(c, m_, nv, node)
+                    eff = getattr(c, 'effect_raise', None)
+                    if eff:
+                        eff(self, term)
+                    raise SymRaise('<sym>', 'raised by %s' % c.qualname, term=term)
+                self.env, self.old_env = cenv, dict(vals)
             # exceptional outcome?
             if c.raises:
                 for exc, guard in c.raises.items():
@@ -974,8 +1034,25 @@ class Interp:
                 self.env[argnode.id] = nv
             elif argnode is not None and not isinstance(argnode, (ast.List, ast.Call)):
                 raise OutsideSubset('modified argument is not a variable: %s' % short(argnode))
+        eff = getattr(c, 'effect', None)
+        if eff:
+            eff(self, result)
         self.events.append(('call', c.qualname))
         return result
+
+    def writeback(self, c, m, nv, node):
+        if node is None:
+            return
+        idx = list(c.params).index(m)
+        argnode = None
+        if idx < len(node.args):
+            argnode = node.args[idx]
+        else:
+            for k in node.keywords:
+                if k.arg == m:
+                    argnode = k.value
+        if isinstance(argnode, ast.Name):
+            self.env[argnode.id] = nv
 
     def call_lemma(self, lem, args, kwargs):
         """Ghost call of a lemma: assert requires, assume ensures, for these arguments."""
@@ -1152,7 +1229,10 @@ class Interp:
 
     def st_Raise(self, s):
         if s.exc is None:
-            raise OutsideSubset('bare raise')
+            cur = getattr(self, 'handling', None)
+            if cur is None:
+                raise OutsideSubset('bare raise outside a handler')
+            raise SymRaise(cur.cls, cur.why, term=cur.term)
         node = s.exc
         if isinstance(node, ast.Call):
             name = node.func.id if isinstance(node.func, ast.Name) else None
@@ -1160,8 +1240,10 @@ class Interp:
             name = node.id
         else:
             name = None
-        if name in EXC_LATTICE:
+        if name in EXC_LATTICE or name in getattr(self.U, 'exc_lattice', {}):
             raise SymRaise(name, 'raise statement at line %d' % s.lineno)
+        if isinstance(node, ast.Name) and name in self.env and isinstance(self.env[name], tuple) and self.env[name][:1] == ('excval',):
+            raise SymRaise(self.env[name][1], 're-raise', term=self.env[name][2])
         v = self.ev(node)
         hook = getattr(self.U, 'raise_hook', None)
         if hook:
@@ -1194,7 +1276,17 @@ class Interp:
 
     def st_Try(self, s):
         if s.finalbody:
-            raise OutsideSubset('try/finally')
+            try:
+                self.try_core(s)
+            except (SymRaise, ReturnSig, BreakSig, ContinueSig):
+                self.exec_block(s.finalbody)       # (an exception raised by the finally block itself replaces the pending one)
+                raise
+            else:
+                self.exec_block(s.finalbody)
+            return
+        self.try_core(s)
+
+    def try_core(self, s):
         try:
             self.exec_block(s.body)
         except SymRaise as e:
@@ -1206,12 +1298,18 @@ class Interp:
                 else:
                     names = [h.type.id]
                 hook = getattr(self.U, 'except_hook', None)
-                matched = hook(self, e, names) if hook and e.term is not None else any(exc_subclass(e.cls, n) for n in names)
+                lat = getattr(self.U, 'exc_lattice', None)
+                matched = hook(self, e, names) if hook and e.term is not None else any(exc_subclass(e.cls, n, lat) for n in names)
                 if matched:
                     if h.name:
-                        self.env[h.name] = e.term if e.term is not None else ('exc', e.cls)
+                        self.env[h.name] = ('excval', e.cls, e.term)
                     self.trace.append('+except ' + '|'.join(names))
-                    self.exec_block(h.body)
+                    saved_h = getattr(self, 'handling', None)
+                    self.handling = e
+                    try:
+                        self.exec_block(h.body)
+                    finally:
+                        self.handling = saved_h
                     return
             raise
         else:
